@@ -141,7 +141,7 @@ func runRound(rng *rand.Rand, scen string, round int, ops []op, min, max int, al
 	}
 	sort.Strings(names)
 	fmt.Printf("round %s %d ops=%s\n", scen, round, strings.Join(names, ","))
-	counting = round == 0
+	counting = round == 0 || os.Getenv("C10_COUNT_ALL") != "" // debugging aid: count the successes of every round
 	start := make(chan struct{})
 	var wg sync.WaitGroup
 	for _, o := range picked {
@@ -189,6 +189,8 @@ type broker struct {
 	nodes      []int32     // current broker ids of the cluster layout (nil: the single broker 1); guarded by mu
 	tlsServer  *tls.Config // non-nil: the broker end of every connection speaks TLS
 	maxProduce int16       // > 0: the highest Produce version ApiVersions offers (2 = a 0.10.x broker: message sets)
+	maxFetch   int16       // > 0: the highest Fetch version offered (2: message-set responses; 5; 10)
+	maxMeta    int16       // > 0: the highest Metadata version offered (1; 6)
 }
 
 // groupCoord is a small multi-member group coordinator (scaffolding): a JoinGroup or LeaveGroup starts a
@@ -412,11 +414,18 @@ func (b *broker) serve(c net.Conn) {
 			if b.maxProduce > 0 {
 				maxProduce = b.maxProduce
 			}
+			maxFetch, maxMeta := int16(10), int16(6)
+			if b.maxFetch > 0 {
+				maxFetch = b.maxFetch
+			}
+			if b.maxMeta > 0 {
+				maxMeta = b.maxMeta
+			}
 			resp = &apiversions.Response{ApiKeys: []apiversions.ApiKeyResponse{
 				{ApiKey: int16(protocol.Produce), MinVersion: 0, MaxVersion: maxProduce},
-				{ApiKey: int16(protocol.Fetch), MinVersion: 0, MaxVersion: 10},
+				{ApiKey: int16(protocol.Fetch), MinVersion: 0, MaxVersion: maxFetch},
 				{ApiKey: int16(protocol.ListOffsets), MinVersion: 1, MaxVersion: 1},
-				{ApiKey: int16(protocol.Metadata), MinVersion: 0, MaxVersion: 6},
+				{ApiKey: int16(protocol.Metadata), MinVersion: 0, MaxVersion: maxMeta},
 				{ApiKey: int16(protocol.ApiVersions), MinVersion: 0, MaxVersion: 0},
 				{ApiKey: int16(protocol.OffsetCommit), MinVersion: 0, MaxVersion: 2},
 				{ApiKey: int16(protocol.OffsetFetch), MinVersion: 0, MaxVersion: 1},
@@ -531,6 +540,10 @@ func (b *broker) serve(c net.Conn) {
 			resp = out
 		case *fetch.Request:
 			out := &fetch.Response{}
+			setVersion := int8(2)
+			if v < 4 {
+				setVersion = 1 // Fetch v0–v3: message sets (magic 1), what the v2 path of Conn.ReadBatchWith parses
+			}
 			for _, t := range r.Topics {
 				rt := fetch.ResponseTopic{Topic: t.Topic}
 				for _, p := range t.Partitions {
@@ -546,7 +559,7 @@ func (b *broker) serve(c net.Conn) {
 						time.Sleep(5 * time.Millisecond) // empty long-poll
 					}
 					rt.Partitions = append(rt.Partitions, fetch.ResponsePartition{Partition: p.Partition, HighWatermark: hwm, LastStableOffset: hwm,
-						RecordSet: protocol.RecordSet{Version: 2, Records: protocol.NewRecordReader(recs...)}})
+						RecordSet: protocol.RecordSet{Version: setVersion, Records: protocol.NewRecordReader(recs...)}})
 				}
 				out.Topics = append(out.Topics, rt)
 			}
@@ -1147,6 +1160,9 @@ func scenConn(rng *rand.Rand, rounds int) {
 		// the three produce paths of Conn.writeCompressedMessages: Produce v7, v3 (record batches), v2 (message
 		// sets, what a 0.10.x broker offers)
 		b.maxProduce = []int16{2, 7, 2, 3}[(i+i/4)%4]
+		b.maxFetch = []int16{10, 2, 5}[(i+i/3)%3]
+		b.maxMeta = []int16{6, 1}[(i/2)%2]
+		fv, mv := fmt.Sprintf("/fetch-v%d", b.maxFetch), fmt.Sprintf("/metadata-v%d", b.maxMeta)
 		c := kafka.NewConn(b.dial(), "t", 0)
 		c.SetDeadline(time.Now().Add(5 * time.Second))
 		var bmu sync.Mutex
@@ -1179,7 +1195,7 @@ func scenConn(rng *rand.Rand, rounds int) {
 			seek("End", 1, kafka.SeekEnd),
 			{"Conn.ReadOffsets", func() { _, _, err := c.ReadOffsets(); ok("Conn.ReadOffsets", err) }},
 			{"Conn.ReadOffset", func() { _, err := c.ReadOffset(time.Now()); ok("Conn.ReadOffset", err) }},
-			{"Conn.ReadPartitions", func() { _, err := c.ReadPartitions("t"); ok("Conn.ReadPartitions", err) }},
+			{"Conn.ReadPartitions", func() { _, err := c.ReadPartitions("t"); ok("Conn.ReadPartitions"+mv, err) }},
 			{"Conn.ApiVersions", func() { _, err := c.ApiVersions(); ok("Conn.ApiVersions", err) }},
 			{"Conn.WriteMessages", func() { _, err := c.WriteMessages(kafka.Message{Value: []byte("w")}); ok("Conn.WriteMessages", err) }},
 			{"Conn.Write", func() { _, err := c.Write([]byte("raw")); ok("Conn.Write", err) }},
@@ -1188,7 +1204,7 @@ func scenConn(rng *rand.Rand, rounds int) {
 				ok("Conn.WriteCompressedMessagesAt", err)
 			}},
 			{"Conn.SetRequiredAcks", func() { ok("Conn.SetRequiredAcks", c.SetRequiredAcks(acks)) }},
-			{"Conn.ReadMessage", func() { _, err := c.ReadMessage(1 << 16); ok("Conn.ReadMessage", err) }},
+			{"Conn.ReadMessage", func() { _, err := c.ReadMessage(1 << 16); ok("Conn.ReadMessage"+fv, err) }},
 			{"Conn.Brokers", func() { _, err := c.Brokers(); ok("Conn.Brokers", err) }},
 			{"Conn.Controller", func() { _, err := c.Controller(); ok("Conn.Controller", err) }},
 			{"Conn.CreateTopics", func() {
@@ -1197,7 +1213,7 @@ func scenConn(rng *rand.Rand, rounds int) {
 			{"Conn.DeleteTopics", func() { ok("Conn.DeleteTopics", c.DeleteTopics("n")) }},
 			{"Conn.Read", func() { _, err := c.Read(make([]byte, 64)); ok("Conn.Read", err) }},
 			{"Conn.Broker", func() { c.Broker(); c.LocalAddr(); c.RemoteAddr() }},
-			{"Batch.ReadMessage", func() { bt := getBatch(); _, err := bt.ReadMessage(); ok("Batch.ReadMessage", err); bt.ReadMessage() }},
+			{"Batch.ReadMessage", func() { bt := getBatch(); _, err := bt.ReadMessage(); ok("Batch.ReadMessage"+fv, err); bt.ReadMessage() }},
 			{"Batch.Read", func() { bt := getBatch(); _, err := bt.Read(make([]byte, 2)); ok("Batch.Read", err) }},
 			{"Batch.Err", func() { getBatch().Err() }},
 			{"Batch.Offset", func() { bt := getBatch(); bt.Offset(); bt.HighWaterMark(); bt.Throttle(); bt.Partition() }},
